@@ -67,7 +67,7 @@ func main() {
 			cpu := &z80.CPU{Memory: mem, IO: io}
 			cpu.PC = tinycpm.Start
 			cpu.SP = uint16(sp)
-			ctx, cancel := context.WithTimeout(context.Background(), 500*time.Millisecond)
+			ctx, cancel := context.WithTimeout(context.Background(), 3*time.Second)
 			err := cpu.Run(ctx)
 			cancel()
 			code := 0
